@@ -6,10 +6,19 @@ import gffutils
 from gv.model import dbutil
 
 ID = "C11"
-RULE = ("one 16-feature (thorough: also a 30-feature) database with mixed-case / non-ASCII seqids, numeric-looking scores, ties in every "
-        "column and '.' coordinates; every combination of method {all_features, features_of_type} x featuretype {None, str, tuple, list, "
-        "absent} x strand {None,+,-,.} x order_by {none, each of 12 names as string, as 1-tuple, every ordered pair} x reverse (single "
-        "column); plus counts and distinct listings. Non-trivial = the expected result has >= 2 features and an order or a filter is given")
+RULE = (
+    "One memoised 16-feature file database (thorough: also a 30-feature one = the 16 plus 14 shifted copies) with mixed-case / "
+    "non-ASCII seqids, numeric-looking scores, ties in every column, '.' coordinates and extra columns. Part 'query' (shards = database "
+    "x method {all_features, features_of_type} x featuretype {None, str, tuple, list, absent type, a 662-entry list} x strand "
+    "{None,+,-,.}): order_by over 157 options {none, each of 12 names (8 columns, attributes, extra, file_order, length) as string, as "
+    "1-tuple, every ordered pair} x reverse (single column only). The result set is compared with a brute-force filter "
+    "(result-set-differs; the query must not raise), an unfiltered unordered iteration must be in input order, ordered results must be "
+    "monotone under SQLite's comparison (NULL first, ties in any order), and each returned feature's file_order attribute must match. "
+    "Part 'counts' (1 shard per database, 10 executions): count_features_of_type for None and 5 types (one absent) against the model "
+    "and against iteration; featuretypes() and seqids() listings; full scan order; counts asked while a listing is being consumed and "
+    "two listings zipped. Non-trivial = the expected result has >= 2 features and an order or a filter is given; every counts "
+    "execution."
+)
 ASSUMPTIONS = [
     "ordering is SQLite's documented comparison for the column's storage class: integers numerically, text by code point (BINARY), NULL first; ties in any order",
     "without order_by only a full unfiltered iteration is required to be in input order",
